@@ -108,6 +108,9 @@ def prior_spec(draw, n_offsets, scale_kms, baseline, max_poly=3, units=True, sam
     pmax = rounded(pmin * draw(logfloat(1.01, 1e4)))
     P = {"kind": draw(st.sampled_from(["uniformlog", "uniformlog", "uniform"])),
          "min": rounded(float(conv(pmin, "d", pun))), "max": rounded(float(conv(pmax, "d", pun))), "unit": pun}
+    if units and draw(st.integers(0, 3)) == 0:
+        # P_max handed over in another time unit than P_min (the prior is declared in P_min's unit)
+        P["max_unit"] = draw(st.sampled_from([x for x in TIME_UNITS if x != pun]))
     # K prior
     if draw(st.integers(0, 2)) < 2:
         ku = vu()
@@ -270,7 +273,10 @@ def build_prior(pr):
             pars = {}
             kw = dict(poly_trend=poly, v0_offsets=offs, model=model)
             if P["kind"] == "uniformlog":
-                kw.update(P_min=P["min"] * pu, P_max=P["max"] * pu)
+                pmax = P["max"] * pu
+                if P.get("max_unit"):
+                    pmax = pmax.to(unit(P["max_unit"]))
+                kw.update(P_min=P["min"] * pu, P_max=pmax)
             else:
                 pars["P"] = xu.with_unit(pm.Uniform("P", P["min"], P["max"]), pu)
             if s["kind"] == "const":
